@@ -4,6 +4,7 @@ import (
 	"cmp"
 	"encoding/binary"
 	"github.com/stretchr/testify/mock"
+	"math"
 	"slices"
 	"sync"
 	"sync/atomic"
@@ -84,6 +85,13 @@ func (cm *MemClientMgr) Get(id ClientID) *ClientConn {
 func (cm *MemClientMgr) Add(cc *ClientConn) {
 	cm.mu.Lock()
 	defer cm.mu.Unlock()
+
+	// With all 65,535 IDs held by connected clients there is none left to hand out: the connection is not registered
+	// and keeps the zero ID (the loop below would never end).
+	if len(cm.clients) >= math.MaxUint16 {
+		cc.ID = ClientID{}
+		return
+	}
 
 	cm.nextClientID.Add(1)
 	binary.BigEndian.PutUint16(cc.ID[:], uint16(cm.nextClientID.Load()))
